@@ -314,6 +314,85 @@ Definition spec (ops : list op) : list entry := spec_from [] ops.
 Definition own_ops (ws : list wop) : list op :=
   flat_map (fun w => match w with Own o => [o] | _ => [] end) ws.
 
+(* ---------- keys as Python objects: what write_value / read_value do with `key` before any byte changes ---------- *)
+(* `key` is whatever the caller passes.  Both methods start with `if key not in self._positions: self._init_value(key)`
+   and _init_value starts with `encoded = key.encode('utf-8')` (errors='strict').  Three ways this refuses a key, all
+   BEFORE the first statement that changes the handle or the file:
+     - the key is not hashable (list, dict, set, bytearray): the membership test raises TypeError;
+     - the key is hashable but not a str (int, float, bool, None, tuple, frozenset, bytes): it is never in the mapping
+       (the mapping holds only str keys and none of these compares equal to a str) and has no .encode that accepts
+       'utf-8': AttributeError;
+     - the key is a str that is not well-formed Unicode (it contains a surrogate code point U+D800..U+DFFF, e.g. the
+       PEP 383 image os.fsdecode(b'caf\xe9')): it is never in the mapping (the mapping holds only keys that were
+       encoded by _init_value or decoded by the reader) and the strict encoder raises UnicodeEncodeError (a ValueError).
+   A str is given by its code points (each < 0x110000); the strict UTF-8 encoder is part of the model, so WHICH strs
+   are refused is decided by the model and compared with the implementation by the correspondence. *)
+Inductive pykey := KStr (cps : list N) | KNoEncode | KUnhashable.
+
+Definition is_surrogate (c : N) : bool := (55296 <=? c) && (c <? 57344).
+
+(* one code point of str.encode('utf-8') *)
+Definition utf8_cp (c : N) : res bytes :=
+  if c <? 128 then Ok [c]
+  else if c <? 2048 then Ok [192 + c / 64; 128 + c mod 64]
+  else if c <? 65536 then
+    if is_surrogate c then Err ValueError                 (* UnicodeEncodeError: surrogates not allowed *)
+    else Ok [224 + c / 4096; 128 + (c / 64) mod 64; 128 + c mod 64]
+  else Ok [240 + c / 262144; 128 + (c / 4096) mod 64; 128 + (c / 64) mod 64; 128 + c mod 64].
+
+Fixpoint utf8 (s : list N) : res bytes :=
+  match s with
+  | [] => Ok []
+  | c :: r => do a <- utf8_cp c; do b <- utf8 r; Ok (a ++ b)
+  end.
+
+(* the byte-string key the rest of the model works with, or the exception raised before anything changed *)
+Definition key_bytes (k : pykey) : res bytes :=
+  match k with
+  | KStr s => utf8 s
+  | KNoEncode => Err AttributeError
+  | KUnhashable => Err TypeError
+  end.
+
+(* the calls as a caller makes them *)
+Inductive pop := PWrite (k : pykey) (v ts : bytes) | PReadV (k : pykey) | PReopen.
+
+Definition lower (o : pop) : res op :=
+  match o with
+  | PWrite k v ts => do kb <- key_bytes k; Ok (Write kb v ts)
+  | PReadV k => do kb <- key_bytes k; Ok (ReadV kb)
+  | PReopen => Ok Reopen
+  end.
+
+(* one call: a refused key raises (Some e) with no file effect and the handle as it was; the history goes on *)
+Definition pstep (isz : N) (w : fstate * handle) (o : pop) : res (fstate * handle * list effect * option exn) :=
+  match lower o with
+  | Err e => Ok (fst w, snd w, [], Some e)
+  | Ok o' => do s <- step isz w o'; Ok (s, None)
+  end.
+
+(* final file, final handle, whole effect trace, what each call raised *)
+Fixpoint prun_from (isz : N) (w : fstate * handle) (ops : list pop)
+  : res (fstate * handle * list effect * list (option exn)) :=
+  match ops with
+  | [] => Ok (fst w, snd w, [], [])
+  | o :: r =>
+      do s <- pstep isz w o;
+      do t <- prun_from isz (fst (fst (fst s)), snd (fst (fst s))) r;
+      Ok (fst (fst (fst t)), snd (fst (fst t)), snd (fst s) ++ snd (fst t), snd s :: snd t)
+  end.
+
+Definition prun (isz : N) (ops : list pop) : res (fstate * handle * list effect * list (option exn)) :=
+  do s <- start isz;
+  do t <- prun_from isz (fst (fst s), snd (fst s)) ops;
+  Ok (fst (fst (fst t)), snd (fst (fst t)), snd s ++ snd (fst t), snd t).
+
+(* the calls that were not refused, with their encoded keys; and the exception of each call *)
+Definition accepted (ops : list pop) : list op :=
+  flat_map (fun o => match lower o with Ok o' => [o'] | Err _ => [] end) ops.
+Definition outcomes (ops : list pop) : list (option exn) :=
+  map (fun o => match lower o with Ok _ => None | Err e => Some e end) ops.
+
 (* ---------- driver entry points (observations; not used by the theorems' statements) ---------- *)
 Definition obs_world (pg : N) (f : fstate) (h : handle) :=
   match f with
